@@ -293,7 +293,11 @@ pub fn gen_curve_obj(r: &mut Rng) -> CurveObj {
     }
     let cal = gen_caltype(r);
     let rule_name = if null { "null" } else { rule };
-    let conv = [Convention::Act360, Convention::Act365F, Convention::One, Convention::Thirty360, Convention::Bus252, Convention::ActActICMA][r.usize(6)];
+    // every day-count convention and every modifier the library knows
+    let conv = [
+        Convention::One, Convention::OnePlus, Convention::Act365F, Convention::Act365FPlus, Convention::Act360, Convention::ThirtyE360,
+        Convention::Thirty360, Convention::Thirty360ISDA, Convention::ActActISDA, Convention::ActActICMA, Convention::Bus252,
+    ][r.usize(11)];
     let md = [Modifier::Act, Modifier::F, Modifier::ModF, Modifier::P, Modifier::ModP][r.usize(5)];
     let ib = if r.bool() { Some(hostile_f64(r)) } else { None };
     spec.index_base = ib;
